@@ -20,6 +20,16 @@
 //   E1 <id> R=<hex> eps=<hex> macheps=<hex> maxev=<n> | c:f:g c:f:g ... | status fx evals
 //   ELL <id> k=<iteration> n=<n> last=<0|1> | f(x) | best f | gHg | x | g | H row;row | x' | H' row;row | x*
 //                                                                   (ev_ellipsoid_update of the real ellipsoid solver, sampled)
+//   stage LOOP (mirrored RQB / FPBA loops; the curve search, proximity_t and the Nesterov sequence are the REAL objects, observed at
+//   every function evaluation / through their private members):
+//   LI <id> k=<iteration> solver=<..> maxev= calls0= cost= miu= stale=<m_status before> sfx=<state.fx> eps0= m1= .. m4= ip= ep=
+//        | pass;pass;...  (pass = t,finite,fx,fy,e,delta,econv,sconv,gdot,sdot)
+//        | status=<m_status returned> t=<m_t> calls=<after search> valid= ret=<done> sstatus=<solver status after done> just=<0|1>
+//        | calls=<end of iteration> sfx=<state.fx> miu=<proximity.miu()> mom=<value at the momentum point|nan|->
+//   PX0 <id> lo= hi= eps0= | gx | fx | miu0
+//   PX <id> kind=<1|2> t= miu= mdn= | xn | xn1 | gn | gn1 | Gn | Gn1 | miu'
+//   NS <id> seq=<1|2> lambda= r=<sqrt(1+4 lambda^2)> reset=<0|1> | z | m_x | m_y | lambda' | m_x' | lambda after the iteration
+//   KSTALE <id> ...                                                 (defect candidate: RQB moved to an unvetted point, see notes/C03.md)
 //   FAIL <id> <clause> ...                                          (direct property oracle, independent of the model)
 //   KFAIL <id> cancellation <clause> ...                            (certificate / converged-not-optimal failure in a run whose
 //                                                                   largest evaluated |f| has ulp * 4 >= the certified tolerance:
@@ -37,10 +47,11 @@
 #include <nano/verif.h>
 #define private public
 #include <nano/solver/bundle.h>
-#undef private
 #include <nano/solver/csearch.h>
 #include <nano/solver/nesterov.h>
 #include <nano/solver/proximity.h>
+#undef private
+#include <functional>
 
 using namespace nano;
 
@@ -73,6 +84,9 @@ double norm2(const std::vector<double>& a, const vector_t& b)
 // A = row-diagonally dominant with margin >= 3 (>= sqrt(8)), integer entries, rows permuted, extra rows appended:
 // |Av|_1 >= |Av|_inf >= 3 |v|_inf >= |v|_2 for n <= 9.
 // ------------------------------------------------------------------------------------------------------------
+// called at the end of every evaluation made through the library: (y, gy, fy)
+std::function<void(const double*, const double*, double)> g_eval_hook;
+
 struct eval_t
 {
     std::vector<double> x, g;
@@ -157,6 +171,7 @@ public:
         for (tensor_size_t j = 0; j < size(); ++j) d += (x(j) - m_xs[static_cast<size_t>(j)]) * (x(j) - m_xs[static_cast<size_t>(j)]);
         if (std::isfinite(f) && f < std::sqrt(d) * (1.0 - 1e-12)) { std::printf("HARNESS-BUG not sharp f=%a d=%a\n", f, std::sqrt(d)); }
         if (m_record) m_trace.push_back(eval_t{std::vector<double>(x.data(), x.data() + x.size()), g, f});
+        if (g_eval_hook) g_eval_hook(x.data(), g.data(), f);
         return f;
     }
     double fstar() const { return 0.0; }
@@ -240,7 +255,8 @@ problem_t make_problem(vh::rng_t& r, int n_fixed = 0)
 struct counters_t
 {
     int64_t sessions{0}, ops{0}, serious{0}, nulls{0}, aggregations{0}, inactive_deleted{0}, guards{0}, convs{0}, conv_true{0},
-        oracle_checks{0}, runs{0}, converged{0}, fails{0}, kfails{0}, e1{0}, mirrors{0}, mirror_ops{0}, ell_events{0}, ell_printed{0};
+        oracle_checks{0}, runs{0}, converged{0}, fails{0}, kfails{0}, e1{0}, mirrors{0}, mirror_ops{0}, ell_events{0}, ell_printed{0},
+        loop_iters{0}, loop_lines{0}, loop_passes{0}, stale_exits{0}, stale_moves{0}, stale_increase{0}, px_lines{0}, ns_lines{0}, loop_oracles{0};
     double  ell_max_m{0};
     std::map<std::string, int64_t> hist;
 } C;
@@ -791,17 +807,68 @@ std::string config_str(const config_t& c)
     return buf;
 }
 
+// ---- stage LOOP: observation of the real csearch_t / proximity_t / nesterov objects inside the mirrored outer loops -------------
+struct pass_t
+{
+    double t, fx, fy, e, delta, gdot, sdot;
+    bool   finite, econv, sconv;
+};
+struct loop_flags_t
+{
+    bool budget_exit{false}; // some search call was ended by its loop guard (no status assigned by a pass: max_iters since repo 31bf93f)
+};
+bool loop_sampled(long k)
+{
+    return k < 48 || k % 16 == 0;
+}
+// a >= b up to the rounding of the two sides (the operands gdot / sdot are recomputed here, outside the library)
+bool ge_slack(double a, double b, bool want)
+{
+    const double sl = 1e-12 * (std::fabs(a) + std::fabs(b)) + 1e-300;
+    return want ? a >= b - sl : !(a >= b + sl);
+}
+// direct oracle, independent of the model: the status returned by csearch_t::search() is the one the operands of the LAST pass of
+// THIS call lead to (i.e. it was assigned in this call)
+bool status_justified(const csearch_t& cs, csearch_status st, const pass_t& p)
+{
+    const bool conv = p.econv && p.sconv;
+    switch (st)
+    {
+    case csearch_status::failed: return !p.finite;
+    case csearch_status::converged: return p.finite && conv;
+    case csearch_status::null_step:
+        return p.finite && !conv && ge_slack(p.fx - p.fy, cs.m_m1 * p.delta, false) && ge_slack(cs.m_m3 * p.delta, p.e, true);
+    case csearch_status::descent_step:
+        return p.finite && !conv && ge_slack(p.fx - p.fy, cs.m_m1 * p.delta, true) && ge_slack(p.gdot, -cs.m_m2 * p.delta, true);
+    case csearch_status::cutting_plane_step:
+        return p.finite && !conv && ge_slack(p.fx - p.fy, cs.m_m1 * p.delta, true) && ge_slack(p.gdot, -cs.m_m2 * p.delta, false) &&
+               (p.sconv || ge_slack(p.sdot, -cs.m_m4 * p.delta, true));
+    default: return false;
+    }
+}
+std::string pass_str(const pass_t& p)
+{
+    return vh::hexf(p.t) + "," + (p.finite ? "1" : "0") + "," + vh::hexf(p.fx) + "," + vh::hexf(p.fy) + "," + vh::hexf(p.e) + "," + vh::hexf(p.delta) + "," +
+           (p.econv ? "1" : "0") + "," + (p.sconv ? "1" : "0") + "," + vh::hexf(p.gdot) + "," + vh::hexf(p.sdot);
+}
+void loop_fail(const std::string& sid, const char* clause, const std::string& detail)
+{
+    std::printf("FAIL %s %s %s\n", sid.c_str(), clause, detail.c_str());
+    ++C.fails;
+}
+
 // Part B: RQB / FPBA loops mirrored on the public bundle_t / csearch_t / proximity_t with the bundle dumped at every
 // step, and compared with the real solver on the same problem (same bits expected: same library code, same inputs)
 template <class tsequence>
 solver_state_t mirror_loop(const std::string& sid, const std::string& sname, const sharp_function_t& function, const vector_t& x0,
-                           const solver_t& solver, const config_t& c, vh::rng_t& r, bool& guarded)
+                           const solver_t& solver, const config_t& c, vh::rng_t& r, bool& guarded, loop_flags_t& flags)
 {
     const auto prefix    = std::string("solver::") + sname;
     const auto max_evals = static_cast<tensor_size_t>(c.max_evals);
     const auto epsilon   = c.eps;
     const auto logger    = make_null_logger();
     const bool is_rqb    = sname == "rqb";
+    const int  seqid     = sname == "fpba2" ? 2 : 1;
 
     auto state     = solver_state_t{function, x0};
     auto bundle    = bundle_t::make(state, solver, prefix);
@@ -821,57 +888,256 @@ solver_state_t mirror_loop(const std::string& sid, const std::string& sname, con
         solver_state_t do_minimize(const function_t&, const vector_t&, const logger_t&) const override { return {}; }
     } probe;
 
+    // proximity_t's constructor: miu0 = clamp(5 |g|^2 / (|f| + eps0), miu0_range)
+    std::printf("PX0 %s lo=%s hi=%s eps0=%s | %s | %s | %s\n", sid.c_str(), vh::hexf(c.miu_lo).c_str(), vh::hexf(c.miu_hi).c_str(), vh::hexf(kEps0).c_str(),
+                hv(state.gx()).c_str(), vh::hexf(state.fx()).c_str(), vh::hexf(proximity.m_miu).c_str());
+    ++C.px_lines;
+    ++C.loop_oracles;
+    if (!(proximity.m_miu >= c.miu_lo && proximity.m_miu <= c.miu_hi))
+        loop_fail(sid, "proximity-miu0-range", "miu0=" + vh::hexf(proximity.m_miu) + " range=" + vh::hexf(c.miu_lo) + ":" + vh::hexf(c.miu_hi));
+
+    // every evaluation made by csearch_t::search is one pass of its loop: the operands of its tests, read from the real bundle
+    std::vector<pass_t> passes;
+    bool                in_search = false;
+    const auto          n         = x0.size();
+    g_eval_hook = [&](const double* yp, const double* gp, double fy)
+    {
+        if (!in_search) return;
+        vector_t y(n), gy(n);
+        for (tensor_size_t i = 0; i < n; ++i) { y(i) = yp[i]; gy(i) = gp[i]; }
+        const auto&    x   = bundle.x();
+        const auto     t   = csearch.m_point.m_t;
+        const auto     miu = proximity.miu();
+        const vector_t s   = bundle.smeared_s();
+        pass_t         p;
+        p.t      = t;
+        p.fx     = bundle.fx();
+        p.fy     = fy;
+        p.e      = bundle.smeared_e();
+        p.delta  = bundle.delta(miu / t);
+        p.econv  = bundle.econverged(epsilon);
+        p.sconv  = bundle.sconverged(epsilon);
+        p.finite = std::isfinite(fy);
+        p.gdot   = gy.dot(y - x);
+        p.sdot   = s.dot(y - x);
+        passes.push_back(p);
+    };
+    const auto calls_now = [&]() { return static_cast<long>(function.fcalls() + function.gcalls()); };
+    const long calls_init = calls_now();
+    const long cost       = 2; // vgrad with a gradient buffer: fcalls + 1, gcalls + 1
+
     guarded = false;
     long local_ops = 0;
+    long k         = 0;
+    double       best_seen = state.fx();
+    const double f_start   = state.fx();
     while (function.fcalls() + function.gcalls() < max_evals)
     {
-        const auto& [t, status, y, gy, fy] = csearch.search(bundle, proximity.miu(), max_evals, epsilon, logger);
+        const bool   trace  = loop_sampled(k);
+        const long   calls0 = calls_now();
+        const double miu0   = proximity.miu();
+        const int    stale  = static_cast<int>(csearch.m_point.m_status);
+        const double sfx0   = state.fx();
+        passes.clear();
+        in_search = true;
+        const auto&     point  = csearch.search(bundle, proximity.miu(), max_evals, epsilon, logger);
+        const double    t      = point.m_t;
+        const auto      status = point.m_status;
+        const vector_t& y      = point.m_y;
+        const vector_t& gy     = point.m_gy;
+        const double    fy     = point.m_fy;
+        in_search = false;
+        const long calls1 = calls_now();
         // when the budget ran out inside the curve search t may have been changed after the last solve: miu unknown
         print_solve(sid, bundle, function.fcalls() + function.gcalls() < max_evals ? proximity.miu() / t : std::nan(""));
         print_conv(sid, bundle, epsilon);
         oracle_certificate(sid, bundle, function, epsilon);
 
+        // ---- direct oracles of the curve search (model independent) ----
+        ++C.loop_iters;
+        C.loop_passes += static_cast<int64_t>(passes.size());
+        C.loop_oracles += 3;
+        if (passes.empty()) loop_fail(sid, "search-without-evaluation", "k=" + std::to_string(k));
+        if (calls1 != calls0 + cost * static_cast<long>(passes.size()))
+            loop_fail(sid, "search-calls", "k=" + std::to_string(k) + " calls0=" + std::to_string(calls0) + " calls1=" + std::to_string(calls1) + " passes=" + std::to_string(passes.size()));
+        if (calls1 - cost >= static_cast<long>(max_evals) && !passes.empty())
+            loop_fail(sid, "search-evaluates-beyond-budget", "k=" + std::to_string(k) + " calls=" + std::to_string(calls1) + " max_evals=" + std::to_string(c.max_evals));
+        // direct oracle of the bracket (model independent): the side of the m1 test decides which end moves onto t, the next trial is
+        // strictly inside the new bracket (interpolation) or beyond t (extrapolation)
+        {
+            double tL = 0.0, tR = std::numeric_limits<double>::infinity();
+            for (size_t i = 0; i + 1 < passes.size(); ++i)
+            {
+                const auto& p  = passes[i];
+                const bool  up = ge_slack(p.fx - p.fy, csearch.m_m1 * p.delta, true), dn = ge_slack(p.fx - p.fy, csearch.m_m1 * p.delta, false);
+                if (up == dn) break; // within rounding of the threshold: the side is not known here
+                if (up) tL = p.t; else tR = p.t;
+                const double tn = passes[i + 1].t;
+                const double te = std::isfinite(tR) ? (1.0 - csearch.m_interpol) * tL + csearch.m_interpol * tR : p.t * csearch.m_extrapol;
+                ++C.loop_oracles;
+                // (binary64: strictly inside until the bracket collapses onto adjacent doubles / denormals -- counted, see notes/C03.md)
+                if (tn == tL || tn == tR) C.hist["loop_bracket_collapsed_in_binary64"]++;
+                if (!(tn >= tL) || !(tn <= tR) || std::fabs(tn - te) > 1e-12 * std::fabs(te))
+                {
+                    loop_fail(sid, "trial-outside-bracket", "k=" + std::to_string(k) + " pass=" + std::to_string(i) + " t=" + vh::hexf(p.t) + " next=" + vh::hexf(tn) + " expected=" + vh::hexf(te) +
+                                                               " bracket=[" + vh::hexf(tL) + "," + vh::hexf(tR) + "]");
+                    break;
+                }
+            }
+        }
+        const bool justified = !passes.empty() && status_justified(csearch, status, passes.back());
+        if (!justified)
+        {
+            // no pass of this call assigned the returned status: only the loop guard may have ended the call, and then the status is
+            // the reset value max_iters (repo 31bf93f) -- never the status of a previous call
+            C.loop_oracles += 1;
+            if (calls1 >= static_cast<long>(max_evals) && status == csearch_status::max_iters) { flags.budget_exit = true; ++C.stale_exits; }
+            else
+                loop_fail(sid, "status-not-assigned-in-this-call",
+                          "k=" + std::to_string(k) + " returned status=" + std::to_string(static_cast<int>(status)) + " previous call's status=" + std::to_string(stale) +
+                              " calls=" + std::to_string(calls1) + " max_evals=" + std::to_string(c.max_evals) + " last pass=" + (passes.empty() ? std::string("-") : pass_str(passes.back())));
+        }
+        if (!passes.empty() && passes.back().t != t)
+        {
+            // t is the trial of the last pass, or (budget exit) the next trial that was not evaluated
+            if (calls1 < static_cast<long>(max_evals)) loop_fail(sid, "search-returns-other-t", "k=" + std::to_string(k));
+        }
+
         const auto iter_ok   = status != csearch_status::failed;
         const auto converged = status == csearch_status::converged;
         if (!g_quiet) std::printf("CS %s %d %d %d\n", is_rqb ? "rqb" : "fpba", static_cast<int>(status), iter_ok ? 1 : 0, converged ? 1 : 0);
-        if (probe.done(state, iter_ok, converged, logger)) break;
+        const bool   valid = state.valid();
+        const bool   ret   = probe.done(state, iter_ok, converged, logger);
+        const int    sstat = static_cast<int>(state.status());
+        std::string  mom   = "-";
+        const auto emit_li = [&]()
+        {
+            if (!trace) return;
+            std::string ps;
+            for (const auto& p : passes) { if (!ps.empty()) ps += ";"; ps += pass_str(p); }
+            std::printf("LI %s k=%ld solver=%s maxev=%d calls0=%ld cost=%ld miu=%s stale=%d sfx=%s eps0=%s m1=%s m2=%s m3=%s m4=%s ip=%s ep=%s | %s | "
+                        "status=%d t=%s calls=%ld valid=%d ret=%d sstatus=%d just=%d | calls=%ld sfx=%s miu=%s mom=%s\n",
+                        sid.c_str(), k, sname.c_str(), c.max_evals, calls0, cost, vh::hexf(miu0).c_str(), stale, vh::hexf(sfx0).c_str(), vh::hexf(kEps0).c_str(),
+                        vh::hexf(csearch.m_m1).c_str(), vh::hexf(csearch.m_m2).c_str(), vh::hexf(csearch.m_m3).c_str(), vh::hexf(csearch.m_m4).c_str(),
+                        vh::hexf(csearch.m_interpol).c_str(), vh::hexf(csearch.m_extrapol).c_str(), ps.empty() ? "-" : ps.c_str(),
+                        static_cast<int>(status), vh::hexf(t).c_str(), calls1, valid ? 1 : 0, ret ? 1 : 0, sstat, justified ? 1 : 0,
+                        calls_now(), vh::hexf(state.fx()).c_str(), vh::hexf(proximity.m_miu).c_str(), mom.c_str());
+            ++C.loop_lines;
+        };
+        if (ret) { emit_li(); break; }
 
+        const auto px_line = [&](int kind, double miu_before)
+        {
+            ++C.loop_oracles;
+            if (!(proximity.m_miu > 0.0) || !std::isfinite(proximity.m_miu))
+                loop_fail(sid, "proximity-miu-not-positive", "k=" + std::to_string(k) + " miu=" + vh::hexf(proximity.m_miu));
+            if (!trace) return;
+            std::printf("PX %s kind=%d t=%s miu=%s mdn=%s | %s | %s | %s | %s | %s | %s | %s\n", sid.c_str(), kind, vh::hexf(t).c_str(), vh::hexf(miu_before).c_str(),
+                        vh::hexf(proximity.m_min_dot_nuv).c_str(), hv(bundle.x()).c_str(), hv(y).c_str(), hv(bundle.gx()).c_str(), hv(gy).c_str(),
+                        kind == 2 ? hv(Gn).c_str() : "-", kind == 2 ? hv(Gn1).c_str() : "-", vh::hexf(proximity.m_miu).c_str());
+            ++C.px_lines;
+        };
+        bool stop = false;
         if (status == csearch_status::descent_step || status == csearch_status::cutting_plane_step)
         {
+            if (!justified) ++C.stale_moves; // (reported above as status-not-assigned-in-this-call)
             if (is_rqb)
             {
                 if (status == csearch_status::descent_step)
                 {
+                    const double miu_before = proximity.m_miu;
                     Gn1 = bundle.smeared_s();
                     proximity.update(t, bundle.x(), y, bundle.gx(), gy, Gn, Gn1);
+                    px_line(2, miu_before); // NB: printed before Gn = Gn1
                     Gn = Gn1;
                 }
                 else
                 {
                     Gn = bundle.smeared_s();
                 }
-                if (!apply_append(sid, bundle, true, y, gy, fy)) { guarded = true; break; }
-                state.update(y, gy, fy);
+                if (!apply_append(sid, bundle, true, y, gy, fy)) { guarded = true; stop = true; }
+                else
+                {
+                    state.update(y, gy, fy);
+                    // direct oracle: the centre value of RQB never increases (convex objective)
+                    ++C.loop_oracles;
+                    if (state.fx() > sfx0 + 1e-12 * (1.0 + std::fabs(sfx0)))
+                    {
+                        if (!justified) ++C.stale_increase;
+                        loop_fail(sid, "rqb-centre-increased", "k=" + std::to_string(k) + " status=" + std::to_string(static_cast<int>(status)) + (justified ? "" : " (not assigned by this call)") +
+                                                                   " f: " + vh::hexf(sfx0) + " -> " + vh::hexf(state.fx()) + " f(x0)=" + vh::hexf(f_start));
+                    }
+                }
             }
             else
             {
-                if (status == csearch_status::descent_step) proximity.update(t, bundle.x(), y, bundle.gx(), gy);
+                if (status == csearch_status::descent_step)
+                {
+                    const double miu_before = proximity.m_miu;
+                    proximity.update(t, bundle.x(), y, bundle.gx(), gy);
+                    px_line(1, miu_before);
+                }
                 state.update_if_better(y, gy, fy);
+                const double   lam0 = sequence.m_lambda;
+                const vector_t mx0 = sequence.m_x, my0 = sequence.m_y;
+                const double   rw   = std::sqrt(1.0 + 4.0 * lam0 * lam0);
                 const auto& x  = sequence.update(y);
+                const double   lam1 = sequence.m_lambda;
+                const vector_t mx1  = x;
                 const auto  fx = function.vgrad(x, gx);
-                if (!apply_append(sid, bundle, true, x, gx, fx)) { guarded = true; break; }
-                if (!state.update_if_better(x, gx, fx)) sequence.reset();
+                mom = vh::hexf(fx);
+                if (!apply_append(sid, bundle, true, x, gx, fx)) { guarded = true; stop = true; }
+                else
+                {
+                    const bool better = state.update_if_better(x, gx, fx);
+                    if (!better) sequence.reset();
+                    // direct oracles: lambda >= 1 and growing, m_y = z, reset <=> no improvement, state = best of (previous, z, momentum point)
+                    C.loop_oracles += 3;
+                    if (!(lam1 >= 1.0) || !(lam1 > lam0) || hv(sequence.m_y) != hv(y) || (sequence.m_lambda != (better ? lam1 : 1.0)))
+                        loop_fail(sid, "nesterov-sequence", "k=" + std::to_string(k) + " lambda " + vh::hexf(lam0) + " -> " + vh::hexf(lam1) + " -> " + vh::hexf(sequence.m_lambda));
+                    double want = sfx0;
+                    if (std::isfinite(fy) && fy < want) want = fy;
+                    if (std::isfinite(fx) && fx < want) want = fx;
+                    if (state.fx() != want)
+                        loop_fail(sid, "fpba-state-not-best", "k=" + std::to_string(k) + " state=" + vh::hexf(state.fx()) + " best=" + vh::hexf(want));
+                    if (trace)
+                    {
+                        std::printf("NS %s seq=%d lambda=%s r=%s reset=%d | %s | %s | %s | %s | %s | %s\n", sid.c_str(), seqid, vh::hexf(lam0).c_str(), vh::hexf(rw).c_str(),
+                                    better ? 0 : 1, hv(y).c_str(), hv(mx0).c_str(), hv(my0).c_str(), vh::hexf(lam1).c_str(), hv(mx1).c_str(), vh::hexf(sequence.m_lambda).c_str());
+                        ++C.ns_lines;
+                    }
+                }
             }
         }
         else if (status == csearch_status::null_step)
         {
-            if (!apply_append(sid, bundle, false, y, gy, fy)) { guarded = true; break; }
+            if (!apply_append(sid, bundle, false, y, gy, fy)) { guarded = true; stop = true; }
         }
+        if (stop) break;
+        if (status == csearch_status::max_iters)
+        {
+            // the budget ran out inside the curve search: state, bundle and proximity parameter are left as they were
+            ++C.loop_oracles;
+            if (state.fx() != sfx0 || proximity.m_miu != miu0 || calls_now() != calls1)
+                loop_fail(sid, "budget-exit-touched-state", "k=" + std::to_string(k) + " f: " + vh::hexf(sfx0) + " -> " + vh::hexf(state.fx()));
+        }
+        emit_li();
+        best_seen = std::min(best_seen, state.fx());
         ++C.mirror_ops;
         // the phase is per run (not per batch), so that `replay` of one case re-runs exactly the same oracle calls
         if (++local_ops % 4 == 0) oracle_rows(sid, bundle, function, make_probes(r, function, bundle, nullptr));
+        ++k;
     }
+    g_eval_hook = nullptr;
     state.update_calls();
+    // direct oracle: evaluations performed beyond the budget (RQB: < one evaluation, FPBA: < one evaluation + the momentum point)
+    ++C.loop_oracles;
+    if (!guarded)
+    {
+        const long limit = std::max(calls_init, static_cast<long>(max_evals) + (is_rqb ? 1 : 2) * cost - 1);
+        if (calls_now() > limit)
+            loop_fail(sid, "overshoot", "calls=" + std::to_string(calls_now()) + " max_evals=" + std::to_string(c.max_evals) + " limit=" + std::to_string(limit));
+    }
     return state;
 }
 
@@ -879,6 +1145,7 @@ struct mirror_result_t
 {
     solver_state_t st;
     bool           guarded{false};
+    loop_flags_t   flags;
 };
 
 mirror_result_t do_mirror(const std::string& sid, const std::string& sname, problem_t& p, const config_t& c, const solver_t& solver, vh::rng_t& r,
@@ -888,8 +1155,9 @@ mirror_result_t do_mirror(const std::string& sid, const std::string& sname, prob
     verif::g_event_hook.store(nullptr); // the probe's done() is not the solver's
     p.f->clear_statistics();
     g_quiet = quiet;
-    if (sname == "fpba2") m.st = mirror_loop<nesterov_sequence2_t>(sid, sname, *p.f, p.x0, solver, c, r, m.guarded);
-    else m.st = mirror_loop<nesterov_sequence1_t>(sid, sname, *p.f, p.x0, solver, c, r, m.guarded);
+    if (sname == "fpba2") m.st = mirror_loop<nesterov_sequence2_t>(sid, sname, *p.f, p.x0, solver, c, r, m.guarded, m.flags);
+    else m.st = mirror_loop<nesterov_sequence1_t>(sid, sname, *p.f, p.x0, solver, c, r, m.guarded, m.flags);
+    g_eval_hook = nullptr;
     g_quiet = false;
     verif::g_event_hook.store(&event_hook);
     ++C.mirrors;
@@ -908,15 +1176,18 @@ void compare_mirror(const std::string& sid, const std::string& sname, const solv
 }
 
 // Part C: the real solvers with the property's own oracle
-void solver_run(uint64_t case_seed, bool small, bool dump)
+void solver_run(uint64_t case_seed, bool small, bool dump, bool lowbudget = false)
 {
     vh::rng_t         r(case_seed);
-    const std::string id = (dump ? "M" : "R") + std::to_string(case_seed);
+    const std::string id = (lowbudget ? "L" : dump ? "M" : "R") + std::to_string(case_seed);
     static const char* solvers[] = {"rqb", "fpba1", "fpba2", "ellipsoid"};
-    const std::string  sname = solvers[r.range(0, dump ? 2 : 3)];
+    const std::string  sname = lowbudget ? solvers[r.range(0, 3) % 3 == 0 ? 0 : r.range(0, 2)] : solvers[r.range(0, dump ? 2 : 3)];
     auto               p     = make_problem(r);
     auto               c     = draw_config(r, sname, small);
     if (dump) c.max_evals = std::min(c.max_evals, 3000); // keeps the dump small
+    // family L (stage LOOP): the budget runs out inside a curve search after a few outer iterations -- the path on which, before
+    // repo 31bf93f, search() returned the status of the previous call (half of the cases with max_evals in 10..20)
+    if (lowbudget) c.max_evals = static_cast<int>(r.range(0, 1) ? r.range(10, 20) : r.range(21, 90));
     const double       d0    = norm2(p.f->m_xs, p.x0);
     if (sname == "ellipsoid")
     {
@@ -980,6 +1251,25 @@ void solver_run(uint64_t case_seed, bool small, bool dump)
                     static_cast<int>(p.f->m_evals), kind_name(p.kind, p.mu), config_str(c).c_str());
         ++C.fails;
     }
+    // evaluation overshoot of the real solver (C02's clause, a theorem for the three bundle solvers: C03_rqb_budget / C03_fpba_budget)
+    if (sname != "ellipsoid")
+    {
+        const long calls = static_cast<long>(st.fcalls() + st.gcalls());
+        const long limit = std::max<long>(2, static_cast<long>(c.max_evals) + (sname == "rqb" ? 1 : 2) * 2 - 1);
+        ++C.loop_oracles;
+        if (calls > limit)
+        {
+            std::printf("FAIL %s overshoot calls=%ld max_evals=%d limit=%ld\n", id.c_str(), calls, c.max_evals, limit);
+            ++C.fails;
+        }
+        if (mir.flags.budget_exit) C.hist["run_budget_exit_inside_search"]++;
+        ++C.loop_oracles;
+        if (st.fx() > p.f->value(p.x0.data(), nullptr) * (1.0 + 1e-12) && sname == "rqb")
+        {
+            std::printf("FAIL %s rqb-returns-above-start fx=%s f(x0)=%s\n", id.c_str(), vh::hexf(st.fx()).c_str(), vh::hexf(p.f->value(p.x0.data(), nullptr)).c_str());
+            ++C.fails;
+        }
+    }
     // status logic through the hooks: `converged` only if the last done() saw converged = 1 and returned true
     if (!g_events.empty())
     {
@@ -995,7 +1285,8 @@ void solver_run(uint64_t case_seed, bool small, bool dump)
             char buf[64];
             std::snprintf(buf, sizeof(buf), "D %d %d %d %d %d", ev.iter_ok, ev.converged, ev.valid, ev.ret, ev.status_after);
             if (seen[buf]++ == 0) std::printf("%s\n", buf);
-            if (st.fx() > ev.fx && sname != "rqb")
+            // RQB: the state is the bundle centre, whose value never increases on a convex objective (C03_rqb_monotone_repaired)
+            if (st.fx() > ev.fx && !(sname == "rqb" && st.fx() <= ev.fx + 1e-12 * (1.0 + std::fabs(ev.fx))))
             {
                 std::printf("FAIL %s returned-worse-than-seen fx=%s seen=%s\n", id.c_str(), vh::hexf(st.fx()).c_str(), vh::hexf(ev.fx).c_str());
                 ++C.fails;
@@ -1072,6 +1363,7 @@ int main(int argc, char** argv)
         if (what == "S") session(cs, small);
         else if (what == "M") solver_run(cs, small, true);
         else if (what == "R") solver_run(cs, small, false);
+        else if (what == "L") solver_run(cs, small, false, true);
         else if (what == "E") ell1_run(cs);
         std::printf("DONE replay fails=%d kfails=%d guards=%d ell_events=%d ell_max_membership=%.17g\n", static_cast<int>(C.fails), static_cast<int>(C.kfails),
                     static_cast<int>(C.guards), static_cast<int>(C.ell_events), C.ell_max_m);
@@ -1114,15 +1406,20 @@ int main(int argc, char** argv)
     for (int i = 0; i < nsessions; ++i) session(master.next() >> 16, small);
     for (int i = 0; i < nmirrors; ++i) solver_run(master.next() >> 16, small, true);
     for (int i = 0; i < nruns; ++i) solver_run(master.next() >> 16, small, false);
+    const int nlow = thorough ? 6000 : 600;
+    for (int i = 0; i < nlow; ++i) solver_run(master.next() >> 16, small, false, true);
     for (int i = 0; i < ne1; ++i) ell1_run(master.next() >> 16);
     std::string h;
     for (const auto& kv : C.hist) h += " " + kv.first + ":" + std::to_string(kv.second);
     std::printf("DONE sessions=%d ops=%d serious=%d nulls=%d aggregations=%d inactive_deleted=%d guards=%d convs=%d conv_true=%d oracle_checks=%d "
-                "mirrors=%d mirror_ops=%d runs=%d converged=%d e1=%d fails=%d kfails=%d ell_events=%d ell_printed=%d ell_max_membership=%.17g |%s\n",
+                "mirrors=%d mirror_ops=%d runs=%d converged=%d e1=%d fails=%d kfails=%d ell_events=%d ell_printed=%d ell_max_membership=%.17g "
+                "loop_iters=%d loop_lines=%d loop_passes=%d stale_exits=%d stale_moves=%d stale_increase=%d px_lines=%d ns_lines=%d loop_oracles=%d |%s\n",
                 static_cast<int>(C.sessions), static_cast<int>(C.ops), static_cast<int>(C.serious), static_cast<int>(C.nulls),
                 static_cast<int>(C.aggregations), static_cast<int>(C.inactive_deleted), static_cast<int>(C.guards), static_cast<int>(C.convs),
                 static_cast<int>(C.conv_true), static_cast<int>(C.oracle_checks), static_cast<int>(C.mirrors), static_cast<int>(C.mirror_ops),
                 static_cast<int>(C.runs), static_cast<int>(C.converged), static_cast<int>(C.e1), static_cast<int>(C.fails), static_cast<int>(C.kfails),
-                static_cast<int>(C.ell_events), static_cast<int>(C.ell_printed), C.ell_max_m, h.c_str());
+                static_cast<int>(C.ell_events), static_cast<int>(C.ell_printed), C.ell_max_m, static_cast<int>(C.loop_iters), static_cast<int>(C.loop_lines),
+                static_cast<int>(C.loop_passes), static_cast<int>(C.stale_exits), static_cast<int>(C.stale_moves), static_cast<int>(C.stale_increase),
+                static_cast<int>(C.px_lines), static_cast<int>(C.ns_lines), static_cast<int>(C.loop_oracles), h.c_str());
     return 0;
 }
